@@ -17,6 +17,10 @@ streaks: harness/domain.py (gen_streaks) — every rejection loop (bounded norma
          variants), each parameter position, is served 99..65536 (thorough: ..250001) out-of-domain
          draws and then a landing one: the output must be the image of the landing draw after
          streak+1 draws (walk over the generator log + the Lean model, whose loops are unbounded)
+types:   harness/domain.py (gen_start_types, case field xtype) — every discrete family jumps from
+         integers, integer-valued and non-integer floats (k+-0.5, k+-1e-9, negative: int() truncates
+         toward zero), numpy int/float scalars, 0-d arrays, bools: proposals must be integers (in
+         bounds, not the current integer) and equal the model's truncZ x + step
 by name: harness/domain.py (gen_named, spec field cfg) — boundaries / successive / prior widths /
          birth means and stds handed over as dicts in another key order than `parameters`, with
          extra keys, and set again after construction: same scripted call, same outcome as with
@@ -82,7 +86,12 @@ def run(chk, tier, proof_ok):
         '`parameters`, two extra keys, set again through the setters); pairs_compared = the same scripted call on '
         'the object configured in parameter order; pairs_identical = same kind of outcome, same values, same '
         'number of base draws; variant_not_accepted = layouts the code under test refused to construct (no alarm)'))
+    cov['start_point_types'] = dict(stats.get('_start_types', {}), rule=(
+        'one case = one real jump() of a discrete family from a current point whose values are handed over as the '
+        'types counted in per_type_of_start (same numbers to the model); judged by the usual oracle: integer type, '
+        'in bounds, not the current integer int(x) without successive jumps, refusal from outside'))
     picks = cases[:: max(1, len(cases) // 6)][:6]
+    picks += [c for c in cases if c.get('xtype') and 'array0d' in c['xtype'].values()][:1]
     picks += [c for c in cases if domain.is_streak(c) and max(c['tail'][1]) <= 101][:1]
     picks += [c for c in cases if domain.cfg_is_variant(c['spec'].get('cfg')) and c['spec'].get('cfg', {}).get('extra')][:1]
     for c in picks:
